@@ -53,6 +53,7 @@ KINDS = {
     (f"{O}.from_obj", f"{O}.to_cbor", f"{O}.from_cbor", f"{O}.to_obj", "SuitTstr.__init__"): "tstr",
     ("SuitBstr.from_obj", "SuitBstr.to_cbor", "SuitBstr.from_cbor", "SuitBstr.to_obj", "SuitBstr.__init__"): "bstr",
     ("SuitBstr.from_obj", "SuitBstr.to_cbor", "SuitHex.from_cbor", "SuitBstr.to_obj", "SuitBstr.__init__"): "hex",
+    ("SuitBstr.from_obj", "SuitBstr.to_cbor", "SuitBstr.from_cbor", "SuitRawBstr.to_obj", "SuitBstr.__init__"): "rawBstr",
     ("SuitBstr.from_obj", "SuitEmptyBstr.to_cbor", "SuitEmptyBstr.from_cbor", "SuitBstr.to_obj", "SuitBstr.__init__"): "emptyBstr",
     (f"{O}.from_obj", "SuitBchar.to_cbor", "SuitBchar.from_cbor", f"{O}.to_obj", "SuitBchar.__init__"): "bchar",
     (f"{O}.from_obj", "SuitEnum.to_cbor", "SuitEnum.from_cbor", f"{O}.to_obj", "SuitEnum.__init__"): "enum",
@@ -158,7 +159,7 @@ def build_schema():
 
 def ty_lean(d):
     kind, name, x = d
-    if kind in ("uint", "int", "bool", "null", "tstr", "bstr", "hex", "emptyBstr", "bchar", "uuid", "imageSize", "encInfoExt", "unknown"):
+    if kind in ("uint", "int", "bool", "null", "tstr", "bstr", "hex", "emptyBstr", "bchar", "uuid", "imageSize", "encInfoExt", "unknown", "rawBstr"):
         return f".{kind}"
     if kind == "enum":
         return ".enum [" + ", ".join(f"({lean_str(n)}, {lean_int(i)})" for n, i in x) + "]"
